@@ -27,7 +27,7 @@ Open Scope string_scope.
 Inductive dclass := CDelegating | CContainerTwin | CContainerBody | CPureTwin | CRawBody | CBodyFn | CSeparate.
 Record decfact := mkdec { df_key : list N; df_r : string; df_s : string; df_class : dclass; df_accerr : bool; df_relative : bool }.
 
-Inductive eclass := EDelegating | EPrelude | EContainer | EHeader | ETwin | ESeparate.
+Inductive eclass := EDelegating | EPrelude | EContainer | EHeader | ETwin | ETwinDeleg | ESeparate.
 Record encfact := mkenc { ef_type : string; ef_class : eclass }.
 
 Definition dclass_eqb (a b : dclass) : bool :=
@@ -98,22 +98,23 @@ Definition count_cov (c : coverage) (l : list decfact) : nat :=
 (* encoders *)
 Definition c03_enc_separate_proved : list string :=
   [ "MdatBox" (* C03_mdat_enc_agree *); "StsdBox" (* C03_stsd_enc_agree *); "VisualSampleEntryBox" (* C03_vse_enc_agree *)
-  ; "DrefBox"; "TrepBox"; "WvttBox"; "AudioSampleEntryBox" (* header, fixed bytes, children: C03_pfx_enc_agree *) ].
+  ; "DrefBox"; "TrepBox"; "WvttBox"; "AudioSampleEntryBox"; "MetaBox" (* header, fixed bytes, children: C03_pfx_enc_agree *) ].
 Definition c03_enc_twin_proved : list string :=
   [ "File"; "MediaSegment"; "Fragment"; "InitSegment" (* C03_encode_agree: the four are modelled in C03Model.v *)
   ; "MoofBox" (* C03_encode_state_agree: hmoof_w / hmoof_sw of C03EncHistModel.v *) ].
 Definition c03_enc_separate_explored : list string :=
-  [ "MetaBox" ].
+  [ ].
 (* Encode = `b.m(); <the delegation pattern>` with EncodeSW starting with the same `b.m()`: equal provided m is idempotent
    (C03_enc_prelude_agree); the types whose prelude is known to be idempotent *)
 Definition c03_enc_prelude_proved : list string :=
   [ "SencBox" (* setSubSamplesUsedFlag: C02AggSencProofs.senc_setflag_idem, instantiated in C03_enc_prelude_agree *) ].
-Definition c03_enc_twin_explored : list string := [ "Av1CBox"; "HvcCBox" ].
+Definition c03_enc_twin_explored : list string := [ ].
 
 Definition enc_ok (f : encfact) : bool :=
   match ef_class f with
   | EDelegating => true            (* C03_enc_delegate_agree *)
   | EPrelude => smem (ef_type f) c03_enc_prelude_proved
+  | ETwinDeleg => true             (* header, then ONE inner Encode / EncodeSW whose Encode has the delegation pattern: C03_confrec_enc_agree *)
   | EContainer => true             (* C03_encode_agree: EncodeContainer = EncodeContainerSW *)
   | EHeader => true                (* EncodeHeader / EncodeHeaderSW only: the header case of C03_encode_agree (no children) *)
   | ETwin => smem (ef_type f) c03_enc_twin_proved || smem (ef_type f) c03_enc_twin_explored
@@ -139,3 +140,17 @@ Definition enc_prelude_w {S} (p : S -> S) (size : S -> N) (out : S -> option (li
   (s2, sw_run (size s1) (out s2)).      (* sw := NewFixedSliceWriter(int(b.Size())) was sized BEFORE the second b.m() *)
 Definition enc_prelude_sw {S} (p : S -> S) (cap : N) (out : S -> option (list N)) (s : S) : S * option (list N) :=
   let s1 := p s in (s1, sw_run cap (out s1)).
+
+(* ------------------------------------------------------------------ HvcCBox / Av1CBox: header, then the configuration record's own encoder *)
+(* Encode: EncodeHeader(b, w); b.DecConfRec.Encode(w) - which is the delegation pattern around DecConfRec.EncodeSW, sized by DecConfRec.Size();
+   EncodeSW: EncodeHeaderSW(b, sw); b.DecConfRec.EncodeSW(sw).  hdr: the header bytes (None: size >= 2^32), out: what the record's EncodeSW writes *)
+Definition confrec_enc_w (hdr : option (list N)) (isize : N) (out : option (list N)) : option (list N) :=
+  match hdr with
+  | None => None
+  | Some h => match enc_delegating_w isize out with Some bs => Some (h ++ bs)%list | None => None end
+  end.
+Definition confrec_enc_sw (hdr : option (list N)) (cap : N) (out : option (list N)) : option (list N) :=
+  match hdr with
+  | None => None
+  | Some h => match enc_direct_sw cap out with Some bs => Some (h ++ bs)%list | None => None end
+  end.
